@@ -156,11 +156,42 @@ func runC19(p *Program, r *Result) {
 			cached = ph.Edges[only]
 		}
 		pe := pairedErr(cached)
+		var a1 Atom
+		ok1 := false
 		if pe == nil {
+			// the result of a helper spliced in: a merge whose every value that can get here is a
+			// constructor's result, found error-free on its own way into the merge
+			if ph, isPhi := stripConv(cached).(*ssa.Phi); isPhi && fe[ph.Block()] != nil {
+				all, n := true, 0
+				for k, e := range ph.Edges {
+					if !fe[ph.Block()][k] {
+						continue
+					}
+					epe := pairedErr(e)
+					if epe == nil {
+						all = false
+						break
+					}
+					a, okE := nilFact(phiEdgeFacts(ftb, ph, k), epe, true)
+					if !okE {
+						all = false
+						break
+					}
+					a1 = a
+					n++
+				}
+				if all && n > 0 {
+					ok1 = true
+				}
+			}
+		}
+		if pe == nil && !ok1 {
 			r.Unk(sub, key, r.pos(s), "stored value is not (a Phi of) the first result of constructor calls returning (identity, error): "+short(ftb.Term(s.Val).String()))
 			continue
 		}
-		a1, ok1 := nilFact(facts, pe, true)
+		if !ok1 {
+			a1, ok1 = nilFact(facts, pe, true)
+		}
 		a2, ok2 := findFact(facts, func(a Atom) bool {
 			return a.Kind == "call" && a.Pol && strings.HasSuffix(strings.SplitN(a.Call.S, "(", 2)[0]+a.Call.S, ".Equal") || (a.Kind == "call" && a.Pol && strings.HasSuffix(a.Call.S, ".Equal"))
 		})
